@@ -130,7 +130,7 @@ func implTree(t *gen.OpTable, b *px.Built, x any) string {
 			return fmt.Sprintf("A%d", tok.Idx)
 		case len(terms) == 3 && terms[0] == "e": // binary
 			op := v.Kids[1].(ctypes.Token)
-			return "(" + implTree(t, b, v.Kids[0]) + " O" + fmt.Sprint(op.Type-2+1) + " " + implTree(t, b, v.Kids[2]) + ")"
+			return "(" + implTree(t, b, v.Kids[0]) + " O" + fmt.Sprint(op.Type-2-t.Grammar.PadToks+1) + " " + implTree(t, b, v.Kids[2]) + ")"
 		case len(terms) == 3:
 			return "(L " + implTree(t, b, v.Kids[1]) + " R)"
 		case len(terms) == 4:
